@@ -539,6 +539,28 @@ def _is_njit(fn):
     return any(d in ("njit", "jit") for d in _decorators(fn))
 
 
+def _first_value_choice(expr):
+    """The first `a or b` (a: plain name) / `u if a else v` (a: plain name) used as a value inside `expr`, outside lambdas and
+    comprehensions and not inside another choice: (node, test, value-if-true, value-if-false)."""
+    stack = [expr]
+    while stack:
+        n = stack.pop(0)
+        if isinstance(n, (ast.Lambda, ast.ListComp, ast.SetComp, ast.DictComp, ast.GeneratorExp)):
+            continue
+        if isinstance(n, ast.BoolOp):
+            if isinstance(n.op, ast.Or) and len(n.values) == 2 and isinstance(n.values[0], ast.Name) and n is not expr:
+                return (n, n.values[0], n.values[0], n.values[1])
+            continue
+        if isinstance(n, ast.IfExp):
+            if isinstance(n.test, ast.Name) and n is not expr:
+                return (n, n.test, n.body, n.orelse)
+            continue
+        if isinstance(n, ast.Compare):
+            continue
+        stack.extend(ast.iter_child_nodes(n))
+    return None
+
+
 def _split_simple_statements(stmts):
     """`x: T = v` -> `x = v`;  `a, b = u, v` -> `a = u; b = v` (when no target is read on the right-hand side).  Recursive."""
     out = []
@@ -557,6 +579,31 @@ def _split_simple_statements(stmts):
             s = ast.copy_location(ast.If(test=ie.test, body=[mk(ie.body)], orelse=[mk(ie.orelse)]), s)
             out.extend(_split_simple_statements([s]))
             continue
+        if isinstance(s, ast.Assign) and len(s.targets) == 1 and isinstance(s.targets[0], (ast.Name, ast.Attribute)) \
+                and not isinstance(s.value, (ast.IfExp, ast.BoolOp)):
+            # `x = F(a or b)` / `x = F(u if a else v)` with a plain name `a`  ->  `if a: x = F(a) else: x = F(b)`
+            sel = _first_value_choice(s.value)
+            if sel is not None:
+                node, test, yes, no = sel
+
+                def _with(repl):
+                    v = copy.deepcopy(s.value)
+                    # deep copy loses identity: locate the node by position in a parallel walk
+                    for a, b in zip(ast.walk(s.value), ast.walk(v)):
+                        if a is node:
+                            tgt = b
+                            break
+                    class R2(ast.NodeTransformer):
+                        def visit(self, n):
+                            if n is tgt:
+                                return copy.deepcopy(repl)
+                            return self.generic_visit(n)
+                    return R2().visit(v)
+                mk = lambda v: ast.copy_location(ast.Assign(targets=[copy.deepcopy(s.targets[0])], value=v), s)
+                s2 = ast.copy_location(ast.If(test=copy.deepcopy(test), body=[mk(_with(yes))], orelse=[mk(_with(no))]), s)
+                ast.fix_missing_locations(s2)
+                out.extend(_split_simple_statements([s2]))
+                continue
         if isinstance(s, ast.Return) and isinstance(s.value, ast.IfExp):
             ie = s.value
             s = ast.copy_location(ast.If(test=ie.test, body=[ast.copy_location(ast.Return(value=ie.body), s)],
